@@ -12,15 +12,20 @@ import (
 	"os"
 	"os/exec"
 	"path/filepath"
+	"sort"
 	"strconv"
 	"strings"
+	"sync"
 	"time"
+
+	log "github.com/sirupsen/logrus"
 
 	"github.com/dsnet/compress/bzip2"
 	"github.com/klauspost/compress/zstd"
 	"github.com/ulikunitz/xz"
 
 	"git.metabarcoding.org/obitools/obitools4/obitools4/pkg/obiformats"
+	"git.metabarcoding.org/obitools/obitools4/obitools4/pkg/obiiter"
 )
 
 type c17 struct{}
@@ -114,6 +119,84 @@ func c17Compress(codec string, data []byte) []byte {
 // the decompressed FASTA of a `file`/`cmd` case is a pure function of the record count
 func c17FileData(nrec int) []byte { return c17Fasta(rand.New(rand.NewSource(int64(nrec)+99)), nrec) }
 
+// ecoPCR files are not in the list: ReadEcoPCR (ecopcr_read.go) calls seq.SetSource on the nil sequence returned with
+// the end of the data and dies of a nil pointer dereference in its own goroutine at the end of EVERY file, complete or
+// not (exit status 2, nothing to tell apart; the panic cannot be recovered by the harness)
+var c17Formats = []string{"fasta", "fastq", "genbank", "embl", "csv"}
+
+// c17FormatData: `nrec` records in the given text format (pure function of format and record count)
+func c17FormatData(format string, nrec int) []byte {
+	if format == "" || format == "fasta" {
+		return c17FileData(nrec)
+	}
+	rng := rand.New(rand.NewSource(int64(nrec)*7 + int64(len(format))))
+	var b bytes.Buffer
+	dna := func(n int) []byte {
+		s := make([]byte, n)
+		for i := range s {
+			s[i] = "acgt"[rng.Intn(4)]
+		}
+		return s
+	}
+	flat := func(s []byte, gb bool) {
+		for p := 0; p < len(s); p += 60 {
+			if gb {
+				fmt.Fprintf(&b, "%9d", p+1)
+			} else {
+				b.WriteString("    ")
+			}
+			for g := p; g < p+60 && g < len(s); g += 10 {
+				e := g + 10
+				if e > len(s) {
+					e = len(s)
+				}
+				b.WriteByte(' ')
+				b.Write(s[g:e])
+			}
+			if !gb {
+				fmt.Fprintf(&b, " %9d", p+60)
+			}
+			b.WriteByte('\n')
+		}
+	}
+	switch format {
+	case "ecopcr":
+		b.WriteString("#@ecopcr-v2\n#\n# ecoPCR version 1.0\n# direct  strand oligo1 : ACGTACGTACGTACGTAC               ; oligo2c :               CCCCTTTTAAAAGGGG\n" +
+			"# reverse strand oligo2 : GGGGTTTTAAAACCCC               ; oligo1c :              GTACGTACGTACGTACGT\n# max error count by oligonucleotide : 3\n# output in superkingdom mode\n#\n")
+	case "csv":
+		b.WriteString("id,sequence,count\n")
+	}
+	for i := 0; i < nrec; i++ {
+		n := 20 + rng.Intn(90)
+		s := dna(n)
+		id := fmt.Sprintf("s%d", i)
+		switch format {
+		case "fastq":
+			fmt.Fprintf(&b, "@%s d%d\n%s\n+\n%s\n", id, i, s, strings.Repeat("I", n))
+		case "genbank":
+			fmt.Fprintf(&b, "LOCUS       %s %d bp    DNA     linear   PLN 01-JAN-2000\n", id, n)
+			fmt.Fprintf(&b, "DEFINITION  record %d.\nFEATURES             Location/Qualifiers\n     source          1..%d\n", i, n)
+			fmt.Fprintf(&b, "                     /db_xref=\"taxon:%d\"\n", 100+i)
+			b.WriteString("ORIGIN\n")
+			flat(s, true)
+			b.WriteString("//\n")
+		case "embl":
+			fmt.Fprintf(&b, "ID   %s; SV 1; linear; mRNA; STD; PLN; %d BP.\nXX\nDE   record %d.\n", id, n, i)
+			fmt.Fprintf(&b, "FH   Key             Location/Qualifiers\nFH\nFT   source          1..%d\n", n)
+			fmt.Fprintf(&b, "FT                   /db_xref=\"taxon:%d\"\n", 100+i)
+			b.WriteString("SQ   Sequence\n")
+			flat(s, false)
+			b.WriteString("//\n")
+		case "ecopcr":
+			fmt.Fprintf(&b, "%s | %d | %d | species | %d | Homo sapiens | 9605 | Homo | 9604 | Hominidae | 2759 | Eukaryota | D | ACGTACGTACGTACGTAC | 0 | 55.5 | GGGGTTTTAAAACCCC | 1 | 50.1 | %d | %s | record %d\n",
+				id, n+40, 9606, 9606, n, s, i)
+		case "csv":
+			fmt.Fprintf(&b, "%s,%s,%d\n", id, s, i+1)
+		}
+	}
+	return b.Bytes()
+}
+
 func (c17) Gen(rng *rand.Rand, tier string, emit func(string)) {
 	// corpus
 	for _, e := range []string{"eof", "ueof", "other"} {
@@ -139,9 +222,126 @@ func (c17) Gen(rng *rand.Rand, tier string, emit func(string)) {
 		}
 	}
 	// the C reader (kseq + zlib, the stdin path of the commands) at every truncation point of a gzip file
-	zk := c17Compress("gz", c17FileData(6))
+	kn := 4
+	if tier == "thorough" {
+		kn = 6
+	}
+	zk := c17Compress("gz", c17FileData(kn))
 	for k := 2; k <= len(zk); k++ {
-		emit(fmt.Sprintf("kseq gz nrec=6 cut=%d", k))
+		emit(fmt.Sprintf("kseq gz nrec=%d cut=%d", kn, k))
+	}
+	zq := c17Compress("gz", c17FormatData("fastq", 3))
+	for k := 2; k <= len(zq); k += 1 + (len(zq)-k)/40 {
+		emit(fmt.Sprintf("kseq gz fq=3 cut=%d", k))
+	}
+	// corpus for the C reader: the cases found failing before the repairs (a record without sequence, a quality
+	// shorter than its sequence, a byte 0xFF) in front of a truncation that zlib only meets later, and the parser's corners
+	h := func(s string) string { return hx([]byte(s)) }
+	for _, c := range []string{
+		"kseq gz big=2001 cut=20000", "kseq gz big=2001 none", "kseq gz big=2000 cut=20000", "kseq gz big=2000 none", "kseq raw big=400 none",
+		"kseq gz big=2000 flip=100000", "kseq gz big=2000 flip=300000", "kseq gz big=120 m2cut=40", "kseq gz big=120 m2flip=400", "kseq gz big=2000 m2cut=9000",
+		"kseq raw x=" + h(">a\nac\n>e\n>b\nacgt\n") + " none", "kseq raw x=" + h("@a\nacgt\n+\nIIII\n@b\nacgt\n+\nII") + " none",
+		"kseq raw x=" + h("@a\nacgt\n+\nII\n@b\nacgt\n+\nIIII\n") + " none", "kseq raw x=" + h(">a\nac\xffgt\n>b\nacgt\n") + " none",
+		"kseq gz x=" + h(">a\nac\xffgt\n>b\nacgt\n") + " cut=25", "kseq raw x=" + h(">a d e\r\nAC GT\r\nNN\r\n\r\n>b\t x \nGG") + " none",
+		"kseq raw x=" + h(">a\nacgt\n>") + " none", "kseq raw x=" + h(">\nacgt\n") + " none", "kseq raw x=" + h("junk\n>a\x00b c\x00d\nac\n+\n") + " none",
+		"kseq raw x=" + h("@a\nac\n+a\n\nII\n@b\nA\n+\n@\n>c\nTT\n") + " none", "kseq raw x=- none", "kseq gz x=- none", "kseq raw x=" + h("\n\n\n") + " none",
+		"kseq raw x=" + h(">a\n"+strings.Repeat("acgt", 1023)+">") + " none",    // the lone '>' is the last byte of a full 4096-byte buffer
+		"kseq raw x=" + h(">a\n"+strings.Repeat("acgt", 1023)+"\n>") + " none", // … and the first byte of the next one
+		"kseq raw x=" + h(">a\n"+strings.Repeat("acgt", 2047)+"a\n") + " none", "kseq raw x=" + h(strings.Repeat(">a b\nacgtacg\n", 1024)) + " none",
+		"kseq gz nrec=5 tail=3", "kseq gz nrec=5 tail=40", "kseq gz nrec=5 m2cut=5", "kseq gz nrec=5 m2flip=90",
+	} {
+		emit(c)
+	}
+	if os.Getenv("C17_PENDING") != "" {
+		// proposed known finding (zlib's gz* functions ignore what follows a complete gzip member when it does not start
+		// with the gzip magic number): emitted once the finding `^kseq\.gz\.zlib-reports-clean$` is registered
+		emit("kseq gz nrec=5 m2cut=1")
+		emit("kseq gz nrec=5 m2flip=3")
+	}
+	// random texts (FASTA / FASTQ pieces, blank lines, CR LF, stray header characters), plain and compressed + damaged
+	nk := 260
+	if tier == "thorough" {
+		nk = 2500
+	}
+	pieces := []string{">", "@", "+", "\n", "\r\n", " ", "\t", "a", "acgt", "ACGTN", "II", "IIII", "!~", "id1", "x y", "\n+\n", "\n>", "\n@", "\x00", "\xff", "\x80"}
+	for i := 0; i < nk; i++ {
+		var sb strings.Builder
+		if rng.Intn(3) > 0 {
+			for r, nr := 0, rng.Intn(5); r < nr; r++ {
+				n := 1 + rng.Intn(9)
+				if rng.Intn(2) == 0 {
+					fmt.Fprintf(&sb, ">r%d%s\n%s\n", r, []string{"", " d", "  d e ", "\td"}[rng.Intn(4)], strings.Repeat("ac", n))
+				} else {
+					fmt.Fprintf(&sb, "@r%d\n%s\n+\n%s\n", r, strings.Repeat("g", n), strings.Repeat("I", n-rng.Intn(2)*rng.Intn(2)))
+				}
+			}
+		}
+		for j, nj := 0, rng.Intn(8); j < nj; j++ {
+			sb.WriteString(pieces[rng.Intn(len(pieces))])
+		}
+		if rng.Intn(12) == 0 {
+			sb.WriteString(strings.Repeat("acgtacgtac\n", 380+rng.Intn(40)))
+			sb.WriteString(pieces[rng.Intn(len(pieces))])
+		}
+		txt := sb.String()
+		switch rng.Intn(4) {
+		case 0:
+			emit("kseq raw x=" + h(txt) + " none")
+		case 1:
+			emit("kseq gz x=" + h(txt) + " none")
+		case 2:
+			zl := len(c17Compress("gz", []byte(txt)))
+			emit(fmt.Sprintf("kseq gz x=%s cut=%d", h(txt), 10+rng.Intn(zl-9)))
+		default:
+			zl := len(c17Compress("gz", []byte(txt)))
+			emit(fmt.Sprintf("kseq gz x=%s flip=%d", h(txt), 16+rng.Intn(zl*8-16)))
+		}
+	}
+	// every reader behind ReadSequencesFromFile: sampled truncation points and bit flips per format and codec
+	for _, format := range c17Formats[1:] {
+		for _, codec := range codecs {
+			z := c17Compress(codec, c17FormatData(format, 4))
+			step := 1 + len(z)/10
+			if tier == "thorough" {
+				step = 1 + len(z)/60
+			}
+			for k := 8 + rng.Intn(step); k < len(z); k += step {
+				emit(fmt.Sprintf("file %s:%s nrec=4 cut=%d n=0 err=eof", codec, format, k))
+			}
+			emit(fmt.Sprintf("file %s:%s nrec=4 cut=%d n=0 err=eof", codec, format, len(z)-1))
+			emit(fmt.Sprintf("file %s:%s nrec=4 cut=%d n=0 err=eof", codec, format, len(z)))
+			nf := 3
+			if tier == "thorough" {
+				nf = 30
+			}
+			for i := 0; i < nf; i++ {
+				emit(fmt.Sprintf("file %s:%s nrec=4 flip=%d n=0 err=eof", codec, format, 64+rng.Intn(len(z)*8-64)))
+			}
+		}
+	}
+	// two-member files with a damaged second member, garbage after a complete file
+	for _, codec := range codecs {
+		d := c17FileData(6)
+		z2 := c17Compress(codec, d[len(d)/2:])
+		nm := 6
+		if tier == "thorough" {
+			nm = 60
+		}
+		for i := 0; i < nm; i++ {
+			emit(fmt.Sprintf("file %s nrec=6 m2cut=%d n=0 err=eof", codec, 1+rng.Intn(len(z2)-1)))
+			emit(fmt.Sprintf("file %s nrec=6 m2flip=%d n=0 err=eof", codec, 64+rng.Intn(len(z2)*8-64)))
+		}
+		emit(fmt.Sprintf("file %s nrec=6 m2cut=%d n=0 err=eof", codec, len(z2)-1))
+		emit(fmt.Sprintf("file %s nrec=6 tail=%d n=0 err=eof", codec, 1+rng.Intn(20)))
+	}
+	// files larger than the 1 MiB peek of the format guesser: the damage is met by the chunk reader
+	for i, codec := range codecs {
+		if tier != "thorough" && i != int(rng.Intn(4)) && codec != "gz" {
+			continue
+		}
+		z := c17Compress(codec, c17FileData(26000))
+		emit(fmt.Sprintf("file %s nrec=26000 cut=%d n=0 err=eof", codec, len(z)-1-rng.Intn(len(z)/8)))
+		emit(fmt.Sprintf("file %s nrec=26000 flip=%d n=0 err=eof", codec, len(z)*8-1-rng.Intn(len(z))))
 	}
 	// bit flips
 	nflip := 40
@@ -164,7 +364,17 @@ func (c17) Gen(rng *rand.Rand, tier string, emit func(string)) {
 	emit(fmt.Sprintf("cmd obiconvert stdin gz nrec=5 cut=%d", len(zg)/2))
 	emit(fmt.Sprintf("cmd obiconvert stdin gz nrec=5 cut=%d", len(zg)-3))
 	emit(fmt.Sprintf("cmd obiconvert stdin gz nrec=400 cut=%d", len(c17Compress("gz", c17FileData(400)))/2))
-	n := 1200
+	// the standard input as a pipe closed after k bytes (thorough: many k)
+	np := 3
+	if tier == "thorough" {
+		np = 40
+	}
+	zp := c17Compress("gz", c17FileData(400))
+	for i := 0; i < np; i++ {
+		emit(fmt.Sprintf("cmd obiconvert pipe gz nrec=400 cut=%d", 10+rng.Intn(len(zp)-10)))
+	}
+	emit(fmt.Sprintf("cmd obiconvert pipe gz:fastq nrec=300 cut=%d", len(c17Compress("gz", c17FormatData("fastq", 300)))-2))
+	n := 520
 	if tier == "thorough" {
 		n = 8000
 	}
@@ -253,21 +463,73 @@ func (c17) Exec(c string) (string, []Fail) {
 		return c17File(f)
 	case f[0] == "cmd" && len(f) == 6:
 		return c17Cmd(f)
-	case f[0] == "kseq" && len(f) == 4:
+	case f[0] == "kseq" && (len(f) == 4 || len(f) == 6):
 		return c17Kseq(f)
 	}
 	return "bad-op", nil
 }
 
+// c17Split: "gz" or "gz:fastq" -> codec, format
+func c17Split(s string) (string, string) {
+	if i := strings.IndexByte(s, ':'); i >= 0 {
+		return s[:i], s[i+1:]
+	}
+	return s, "fasta"
+}
+
+// c17Damage builds the damaged compressed file of a case: f = [_, codec[:format], nrec=N, damage]
+//   cut=K      the first K bytes of the file
+//   flip=B     bit B flipped
+//   m2cut=K    two-member file (the two halves of the data compressed separately), K bytes of the second member kept
+//   m2flip=B   two-member file, bit B of the second member flipped
+//   tail=N     complete file followed by N bytes that are not a compressed stream
 func c17Damage(f []string) (codec string, nrec int, z []byte, label string, ok bool) {
-	codec = f[1]
+	codec, format := c17Split(f[1])
 	nrec, ok1 := c17KV(f[2], "nrec")
-	if !ok1 {
+	if !ok1 || nrec < 0 || nrec > 100000 {
 		return
 	}
-	z = c17Compress(codec, c17FileData(nrec))
+	known := false
+	for _, c := range []string{"gz", "bz2", "xz", "zst"} {
+		known = known || c == codec
+	}
+	for _, c := range c17Formats {
+		if c == format {
+			known = known && true
+			format = c
+		}
+	}
+	if !known {
+		return
+	}
+	data := c17FormatData(format, nrec)
+	if k, is := c17KV(f[3], "m2cut"); is {
+		z1, z2 := c17Compress(codec, data[:len(data)/2]), c17Compress(codec, data[len(data)/2:])
+		if k < 1 || k >= len(z2) {
+			return
+		}
+		return codec, nrec, append(append([]byte{}, z1...), z2[:k]...), fmt.Sprintf("m2cut=%d/%d", k, len(z2)), true
+	}
+	if b, is := c17KV(f[3], "m2flip"); is {
+		z1, z2 := c17Compress(codec, data[:len(data)/2]), c17Compress(codec, data[len(data)/2:])
+		if b < 0 || b >= len(z2)*8 {
+			return
+		}
+		z2[b/8] ^= 1 << (b % 8)
+		return codec, nrec, append(append([]byte{}, z1...), z2...), fmt.Sprintf("m2flip=%d", b), true
+	}
+	z = c17Compress(codec, data)
 	if len(z) == 0 {
 		return
+	}
+	if n, is := c17KV(f[3], "tail"); is {
+		if n < 1 || n > 64 {
+			return
+		}
+		for i := 0; i < n; i++ {
+			z = append(z, byte(0x41+i%7))
+		}
+		return codec, nrec, z, fmt.Sprintf("tail=%d", n), true
 	}
 	if k, isCut := c17KV(f[3], "cut"); isCut {
 		if k < 0 || k > len(z) {
@@ -295,7 +557,10 @@ func c17File(f []string) (string, []Fail) {
 	}
 	dir, _ := os.MkdirTemp("", "c17")
 	defer os.RemoveAll(dir)
-	path := filepath.Join(dir, "t.fasta."+codec)
+	_, format := c17Split(f[1])
+	stat("file-format:" + format)
+	stat("file-damage:" + strings.SplitN(f[3], "=", 2)[0])
+	path := filepath.Join(dir, "t."+format+"."+codec)
 	os.WriteFile(path, z, 0o644)
 	// what the decompression stack (the toolkit's own opener) says about these bytes
 	n, class := 0, "eof"
@@ -320,7 +585,7 @@ func c17File(f []string) (string, []Fail) {
 			decoded = append(decoded, buf[:nn]...)
 			n += nn
 		}
-		raw := n == len(z) // not recognised as a compressed stream: the damaged bytes are read as they are
+		raw := n == len(z) && bytes.Equal(decoded, z) // not recognised as a compressed stream: the damaged bytes are read as they are
 		switch {
 		case err == io.EOF && raw && n > 0:
 			class = "raw"
@@ -334,7 +599,7 @@ func c17File(f []string) (string, []Fail) {
 		return ""
 	})
 	_ = openFailed
-	full := c17FileData(nrec)
+	full := c17FormatData(format, nrec)
 	nrecRead := -1
 	rawAccepted := false
 	res := guardT(10*time.Second, func() string {
@@ -361,7 +626,7 @@ func c17File(f []string) (string, []Fail) {
 		rawAccepted = res == "ok" && nrecRead > 0
 		res = "raw"
 	}
-	caseOverride = fmt.Sprintf("file %s nrec=%d %s n=%d err=%s", codec, nrec, f[3], n, class)
+	caseOverride = fmt.Sprintf("file %s nrec=%d %s n=%d err=%s", f[1], nrec, f[3], n, class)
 	var fails []Fail
 	stat("damage-class:" + class)
 	if rawAccepted {
@@ -402,6 +667,12 @@ func c17Cmd(f []string) (string, []Fail) {
 		in, _ := os.Open(path)
 		defer in.Close()
 		cmd.Stdin = in
+	} else if f[2] == "pipe" {
+		// the standard input is a pipe that delivers the bytes in small pieces and is then closed
+		cmd = exec.Command(bin)
+		cmd.Stdin = &faultReader{data: z, piece: 1 + len(z)%97, final: io.EOF}
+	} else if f[2] != "file" {
+		return "bad-op", nil
 	} else {
 		cmd = exec.Command(bin, path)
 	}
@@ -461,43 +732,223 @@ func repoCommandC17(name string) (string, error) {
 	return out, nil
 }
 
-// c17Kseq reads a truncated gzip file through ReadFastSeqFromFile (C kseq over zlib gzread: the reader
-// behind `obiconvert < file`); a truncated stream must end in log.Fatal, never in a normal end.
+// fatal messages of logrus are captured (the harness runs with the log level Panic, at which Fatalf exits
+// without formatting its message): the C reader's reason for ending is part of the compared result
+type c17Hook struct {
+	mu  sync.Mutex
+	msg string
+}
+
+func (h *c17Hook) Levels() []log.Level { return []log.Level{log.FatalLevel} }
+func (h *c17Hook) Fire(e *log.Entry) error {
+	h.mu.Lock()
+	h.msg = e.Message
+	h.mu.Unlock()
+	return nil
+}
+func (h *c17Hook) take() string {
+	h.mu.Lock()
+	defer h.mu.Unlock()
+	m := h.msg
+	h.msg = ""
+	return m
+}
+
+var (
+	c17FatalHook = &c17Hook{}
+	c17HookOnce  sync.Once
+)
+
+// c17Fast is guardT without the 50 ms settling delay after a log.Fatal; it is used where a single
+// goroutine of the code under test can end in log.Fatal and nothing it produced before is looked at.
+func c17Fast(d time.Duration, f func() string) string {
+	fatalSeen.Store(false)
+	ch := make(chan string, 1)
+	go func() {
+		res := ""
+		done := false
+		defer func() {
+			if !done {
+				res = "fatal"
+			}
+			ch <- res
+		}()
+		res = guard(f)
+		done = true
+	}()
+	deadline := time.After(d)
+	for {
+		select {
+		case r := <-ch:
+			if fatalSeen.Load() {
+				return "fatal"
+			}
+			return r
+		case <-deadline:
+			return "hang"
+		default:
+			if fatalSeen.Load() {
+				return "fatal"
+			}
+			time.Sleep(50 * time.Microsecond)
+		}
+	}
+}
+
+// c17KseqData: the plain text of a `kseq` case: "nrec=N" (the FASTA of the file cases), "fq=N" (FASTQ),
+// "big=N" (N FASTA records of 80 bases, with a record without sequence in front when N is odd) or "x=<hex>"
+func c17KseqData(spec string) ([]byte, bool) {
+	if n, ok := c17KV(spec, "nrec"); ok && n >= 0 && n <= 100000 {
+		return c17FileData(n), true
+	}
+	if n, ok := c17KV(spec, "fq"); ok && n >= 0 && n <= 100000 {
+		return c17FormatData("fastq", n), true
+	}
+	if n, ok := c17KV(spec, "big"); ok && n >= 0 && n <= 100000 {
+		rng := rand.New(rand.NewSource(int64(n)))
+		var b bytes.Buffer
+		for i := 0; i < n; i++ {
+			if i == 3 && n%2 == 1 {
+				b.WriteString(">empty no sequence\n")
+			}
+			fmt.Fprintf(&b, ">s%d d\n", i)
+			for j := 0; j < 80; j++ {
+				b.WriteByte("acgt"[rng.Intn(4)])
+			}
+			b.WriteByte('\n')
+		}
+		return b.Bytes(), true
+	}
+	if strings.HasPrefix(spec, "x=") {
+		return unhx(spec[2:])
+	}
+	return nil, false
+}
+
+// c17Kseq reads a file through ReadFastSeqFromFile (C kseq over zlib gzread: the reader behind
+// `obiconvert < file`):  kseq <raw|gz> <data spec> <none|cut=K|flip=B|m2cut=K|m2flip=B|tail=N>
+// What zlib makes of the file (bytes delivered by successive gzread calls, final gzerror class) is
+// recorded with an independent scan and given to the model as data.
 func c17Kseq(f []string) (string, []Fail) {
-	codec, nrec, z, label, ok := c17Damage([]string{"file", f[1], f[2], f[3]})
-	if !ok || codec != "gz" {
+	data, ok := c17KseqData(f[2])
+	if !ok || (f[1] != "raw" && f[1] != "gz") {
 		return "bad-op", nil
 	}
-	full := c17Compress("gz", c17FileData(nrec))
+	comp := func(b []byte) []byte {
+		if f[1] == "gz" {
+			return c17Compress("gz", b)
+		}
+		return append([]byte{}, b...)
+	}
+	z := comp(data)
+	damaged := true
+	k, isCut := c17KV(f[3], "cut")
+	b, isFlip := c17KV(f[3], "flip")
+	k2, isCut2 := c17KV(f[3], "m2cut")
+	b2, isFlip2 := c17KV(f[3], "m2flip")
+	nt, isTail := c17KV(f[3], "tail")
+	switch {
+	case f[3] == "none":
+		damaged = false
+	case isCut && k >= 0 && k <= len(z):
+		damaged = k < len(z)
+		z = z[:k]
+	case isFlip && b >= 0 && b < len(z)*8:
+		z[b/8] ^= 1 << (b % 8)
+	case (isCut2 || isFlip2) && f[1] == "gz":
+		z1, z2 := comp(data[:len(data)/2]), comp(data[len(data)/2:])
+		if isCut2 {
+			if k2 < 1 || k2 >= len(z2) {
+				return "bad-op", nil
+			}
+			z2 = z2[:k2]
+		} else {
+			if b2 < 0 || b2 >= len(z2)*8 {
+				return "bad-op", nil
+			}
+			z2[b2/8] ^= 1 << (b2 % 8)
+		}
+		z = append(z1, z2...)
+	case isTail && nt >= 1 && nt <= 64:
+		for i := 0; i < nt; i++ {
+			z = append(z, byte(0x41+i%7))
+		}
+	default:
+		return "bad-op", nil
+	}
+	stat("kseq-damage:" + f[1] + ":" + strings.SplitN(f[3], "=", 2)[0])
 	dir, _ := os.MkdirTemp("", "c17k")
 	defer os.RemoveAll(dir)
 	path := filepath.Join(dir, "t.fasta.gz")
 	os.WriteFile(path, z, 0o644)
-	got := -1
-	res := guardT(10*time.Second, func() string {
-		it, err := obiformats.ReadFastSeqFromFile(path, obiformats.OptionsParallelWorkers(1))
+	delivered, fin, sok := c17GzScan(path)
+	if !sok {
+		return "bad-op", nil
+	}
+	stat("kseq-zlib:" + fin)
+	c17HookOnce.Do(func() {
+		log.AddHook(c17FatalHook)
+		log.SetLevel(log.FatalLevel)
+	})
+	c17FatalHook.take()
+	var recs []string
+	res := c17Fast(20*time.Second, func() string {
+		it, err := obiformats.ReadFastSeqFromFile(path, obiformats.OptionFastSeqDoNotParseHeader(), obiformats.OptionsBatchSize(1))
 		if err != nil {
 			return "fail"
 		}
-		cnt := 0
+		var bs []obiiter.BioSequenceBatch
 		for it.Next() {
-			cnt += it.Get().Len()
+			bs = append(bs, it.Get())
 		}
-		got = cnt
+		sort.SliceStable(bs, func(i, j int) bool { return bs[i].Order() < bs[j].Order() })
+		for _, bt := range bs {
+			for _, sq := range bt.Slice() {
+				q := "-"
+				if sq.HasQualities() {
+					qq := append([]byte{}, sq.Qualities()...)
+					for i := range qq {
+						qq[i] += 33
+					}
+					q = hx(qq)
+				}
+				recs = append(recs, hx([]byte(sq.Id()))+"/"+hx([]byte(sq.Definition()))+"/"+hx(sq.Sequence())+"/"+q)
+			}
+		}
 		return "ok"
 	})
-	if res == "fatal" {
-		res = "fail"
-	}
 	var fails []Fail
-	truncated := len(z) < len(full)
-	if truncated && res == "ok" {
-		fails = append(fails, Fail{Sig: "kseq.gz.accepted-truncated", Text: fmt.Sprintf("%s: the C reader ended normally with %d of %d records", label, got, nrec)})
+	full := false
+	switch res {
+	case "ok":
+		res = strings.Join(append([]string{"ok", strconv.Itoa(len(recs))}, recs...), " ")
+		full = bytes.Equal(delivered, data)
+	case "fatal":
+		msg := c17FatalHook.take()
+		if fin == "clean" {
+			// the stream is fine: the reason given by the reader is compared with the model
+			switch {
+			case strings.Contains(msg, "quality string shorter"):
+				res = "fatal:-2"
+			case strings.Contains(msg, "has no sequence"):
+				res = "fatal:-4"
+			default:
+				res = "fatal:-1"
+			}
+		}
 	}
-	if !truncated && (res != "ok" || got != nrec) {
-		fails = append(fails, Fail{Sig: "kseq.gz.complete-file", Text: fmt.Sprintf("complete file: %s with %d of %d records", res, got, nrec)})
+	stat("kseq-outcome:" + strings.SplitN(res, " ", 2)[0])
+	if fin != "clean" && strings.HasPrefix(res, "ok") {
+		fails = append(fails, Fail{Sig: "kseq." + f[1] + ".stream-error-accepted", Text: fmt.Sprintf("%s: zlib reports the stream as %s after %d bytes and the C reader ended normally with %d records", f[3], fin, len(delivered), len(recs))})
 	}
-	// for the model the verdict of zlib on the truncated stream is: truncated <=> not the whole file
-	caseOverride = fmt.Sprintf("kseq gz nrec=%d cut=%d of=%d", nrec, len(z), len(full))
+	if fin == "clean" && damaged && f[1] == "gz" && strings.HasPrefix(res, "ok") && !full {
+		// the damage is not reported by zlib itself (e.g. a damaged magic number makes it copy the file as plain text,
+		// what follows the first gzip member is ignored when it is not a gzip header)
+		fails = append(fails, Fail{Sig: "kseq." + f[1] + ".zlib-reports-clean", Text: fmt.Sprintf("%s: zlib delivers %d bytes (complete data: %d) without any error and the C reader ended normally with %d records", f[3], len(delivered), len(data), len(recs))})
+	}
+	if !damaged && !strings.HasPrefix(res, "ok") && f[2][0] != 'x' && !(strings.HasPrefix(f[2], "big=") && res == "fatal:-4") {
+		fails = append(fails, Fail{Sig: "kseq." + f[1] + ".complete-file", Text: "complete well-formed file: " + res})
+	}
+	caseOverride = fmt.Sprintf("kseq %s %s %s fin=%s d=%s", f[1], f[2], f[3], fin, hx(delivered))
 	return res, fails
 }
